@@ -156,6 +156,13 @@ def plant(d, r, kind, enc, comment=None):
     elif kind == "def-signature":
         ln = d.add('<%def name="df' + str(d.n) + "(a=_('" + m + "'))\">" + nl + "body" + nl + "</%def>" + nl)
         exp(ln, "_", m)
+    elif kind == "def-signature-decorated":
+        # other attributes of the tag (decorator=, filter=, buffered=, cached=) do not move the signature's lines
+        m2 = d.msg(w)
+        extra = r.choice([' decorator="deco_"', ' decorator="deco_" filter="trim"', ' buffered="True" decorator="deco_"', ' filter="trim" cached="False"'])
+        ln = d.add('<%def name="dd' + str(d.n) + "(a=_('" + m + "')," + nl + "    b=_('" + m2 + "'))" + '"' + extra + ">" + nl + "body" + nl + "</%def>" + nl)
+        exp(ln, "_", m)
+        exp(ln + 1, "_", m2)
     elif kind == "block-args":
         ln = d.add('<%block name="bk' + str(d.n) + "\" args=\"a=_('" + m + "')\">" + nl + "body" + nl + "</%block>" + nl)
         exp(ln, "_", m)
@@ -225,7 +232,7 @@ def decoy(d, r, kind):
         d.add("%% if _('" + t + "'):" + nl)
 
 
-PLANTS = ["expr", "expr-gettext", "expr-multiline", "expr-two", "filter-arg", "filter-arg-multiline", "signature-multiline", "control-if", "control-elif", "control-for", "control-continued", "code-block", "module-block",
+PLANTS = ["expr", "expr-gettext", "expr-multiline", "expr-two", "filter-arg", "filter-arg-multiline", "signature-multiline", "control-if", "control-elif", "control-for", "control-continued", "def-signature-decorated", "code-block", "module-block",
           "def-signature", "block-args", "call-expr", "nsdef-attr", "in-def-body"]
 DECOYS = ["text", "text-tag", "doc", "comment", "escaped-percent"]
 
